@@ -14,8 +14,9 @@ PROP = dict(
          "`ed` = one operation of the real editor (every public entry point, generated histories), `edq` = the answers of the 20 "
          "modelled getters on the state after every operation, compared with the model's Editor.query; distinct = distinct record "
          "text. The paired executions (stats pairs.* and capi.*) are oracle runs, not counted as evaluations: Rust API — with/without "
-         "getter bursts, reset in the state a random prefix ends in vs. a newly constructed editor (same options, layout kind, engine, "
-         "user-dictionary entries, estimator clock), A alone vs. A beside other contexts (one on a second thread); C API — the same "
+         "getter bursts, reset in the state a random prefix ends in (all four states; saved cursors, chosen alternative, pending flush) "
+         "vs. a newly constructed editor (same options, layout kind, engine, user-dictionary entries; estimator clock equal, or in half "
+         "of the sessions restarted from the newest stored time with clocks and time stamps left out of the comparison), A alone vs. A beside other contexts (one on a second thread); C API — the same "
          "three experiments through chewing_* calls in worker processes, plus the logger-slot witness",
     trusted_base=["hook H1 (Editor::verif_snapshot, TrieBuf::verif_snapshot) is read-only; layout and conversion answers are recorded "
                   "through wrapper objects installed through the public constructors",
@@ -29,6 +30,9 @@ PROP = dict(
                  "'fresh editor with the same configuration and user dictionary' = the public constructors applied to the same options, "
                  "engine, layout kind, dictionary contents, tables and estimator clock; the pending flush level (non-zero only directly "
                  "after an API learn/unlearn) is the one field a reset keeps and a constructor cannot set (reset_is_fresh states it)",
+                 "NOT proved: that the estimator clock (a new C context restarts it from the newest stored time) and the pending flush "
+                 "level are unobservable; reduced to the step property of one relation (resetFreshModuloClock_of_relation), covered by the "
+                 "paired executions with a restarted clock (Rust API) and with new C contexts",
                  "known finding F33: the logger slot is process-wide (refutation proved, partial theorem excludes exactly that class)",
                  "chewing_userphrase_has_next/get without a preceding enumerate and chewing_free(chewing_get_selKey()) are not exercised: "
                  "both are memory-unsafe after updates (C15's subject), observed as aborts while building this harness"],
@@ -44,10 +48,13 @@ MANIFEST = dict(
          "editors projects to the two separate histories, return values included); the process-wide logger slot as an explicit model "
          "with logger_isolated_refuted (finding F33) and logger_isolated_partial; clear_eq_fresh / reset_is_fresh (Editor::clear "
          "yields exactly the constructors' editor for the same configuration, dictionary, tables, layout object and clock, up to the "
-         "pending flush level; hence every continuation with queries anywhere agrees), processKey_dirty, fresh_by_constructors, and "
-         "the F25 counter-example before/after the fix. Tie: per-step correspondence of model and real editor for every operation and "
+         "pending flush level; hence every continuation with queries anywhere agrees), its bisimulation form (Bisim, bisim_runs, "
+         "reset_is_fresh_bisim), ctx_reset_eq_fresh / ctx_reset_is_fresh for the C context with its iterator slots (all call lists, "
+         "slot reads without Enumerate included), query_meta_blind, processKey_dirty, fresh_by_constructors, and the two reset "
+         "counter-examples before/after their fixes. Tie: per-step correspondence of model and real editor for every operation and "
          "for the 20 getters (edq records), plus the three paired-execution experiments on the real Rust API and on the real C API "
-         "(oracle, child processes). F25 was a genuine defect, repaired by a fix: commit; F33 is a known finding.",
+         "(oracle, child processes). Two genuine defects repaired by fix: commits (F25: saved cursors survive a reset; chewing_Reset kept the "
+         "iterator slots); F33 (process-wide logger slot) is a known finding.",
     note="Theorem: everything stated about the Lean model. Correspondence: model = real editor per step and per getter (hook H1). "
          "Oracle only (no model): the C layer's purity / Reset / independence, threads. Trusted: Lean kernel (propext, "
          "Classical.choice, Quot.sound), the read-only snapshot hooks, harness + compiled model driver.",
